@@ -561,6 +561,25 @@ class World:
                 break
         return "quiescent"
 
+    def advance_holding_deliveries(self, seconds):
+        """Let virtual time pass while the consumers are slow: timers fire as they fall due, queued messages stay queued."""
+        target = self.clock.now + seconds
+        guard = 0
+        while True:
+            guard += 1
+            if guard > 1_000_000:
+                raise RuntimeError("advance did not converge")
+            b = self.broker
+            due = b.due_timers()
+            if due:
+                self.perform(("fire", due[0]))
+                continue
+            nd = b.next_deadline()
+            if nd is None or nd > target:
+                b.clock.advance_to(target)
+                return
+            b.clock.advance_to(nd)
+
     def advance(self, seconds):
         """Let virtual time pass (firing whatever falls due, canonically)."""
         target = self.clock.now + seconds
